@@ -55,7 +55,8 @@ LOOKS_GENERATED = ["y_", "y__0", "localx", "local_x", "lploc_x", "lploc_x_0", "d
                    "hoisted", "res1", "lploc_", "local", "_functions", "next_phase"]
 TAGS = ["<state>", "<p>", "<ret_state>", "<ret_time>", "<ret_time_id>"]
 FUNC_NAMES = ["<func>f", "<func>F", "<func>f_", "<func>f^", "<func>f*", "f", "<builtin>len", "<func>y",
-              "<func>" + "g" * 70, "<func>G" + "g" * 69, "run", "<func>run", "^", "*", "<>"]
+              "<func>" + "g" * 70, "<func>G" + "g" * 69, "run", "<func>run", "^", "*", "<>", "class", "if", "1f",
+              "None", "<func>class", "_private"]
 
 PY_RESERVED = {"self.t", "self.dt", "self._numpy", "self._functions", "self.next_phase",
                "self.phase_transition_table", "self.StateComputed", "self.StepCompleted", "self.StepFailed",
